@@ -1,7 +1,13 @@
 // small utilities: `vh flatten --replay file` prints the flattened circuit (used by the shrinker)
 #include "vh_gen.h"
+#include "stim/util_top/simplified_circuit.h"
 VH_AREA(flatten) {
     stim::Circuit c(vh::read_file(a.replay));
     printf("%s\n", c.flattened().str().c_str());
+    return 0;
+}
+VH_AREA(simplify) {
+    stim::Circuit c(vh::read_file(a.replay));
+    printf("%s\n", stim::simplified_circuit(c).str().c_str());
     return 0;
 }
